@@ -26,8 +26,8 @@ GenInit ==
   /\ obsMade = [created |-> {}, result |-> "unset"]
   /\ role = "client" =>
        /\ fam = 6 => \/ Len(path) <= 2
-                      \/ Len(path) = 3 /\ HasAddrLeaf(path)
-                      \/ Len(path) >= 4 /\ path[Len(path)] \in AddrLeaves
+                      \/ (Len(path) = 3 /\ HasAddrLeaf(path))
+                      \/ (Len(path) >= 4 /\ path[Len(path)] \in AddrLeaves)
        /\ fault # "none" => (Verdict(abs, path, huge, fam) # "reject")
 
 GenNext ==
